@@ -20,7 +20,7 @@ func init() {
 		ID:    "C16",
 		Title: "Packet type dispatch follows the first byte and header flags are preserved",
 		Level: "model_checking",
-		Rule: "complete enumeration of all 256 first bytes x the bodies valid for the selected type taken from the specification encoder (minimal, rich, remaining length 0 where the type allows, every short form; for PUBLISH the body matches the QoS bits of that first byte: packet identifier present for QoS 1/2, absent for 0 and for the reserved combination 3), a frame of every remaining length 0..300 (and mined lengths) for every type, and every frame of the valid corpus V (~2.7k frames, one per field shape) under every flag nibble that keeps its body valid; the 256 x bodies frames also arrive byte by byte with idle reads in between and after runs of 99, 100 and 250 idle reads (100 and more: a rejection is acceptable, another type is not); every frame is read through ten reader implementations (scripted, bufio 16/4096/pre-filled, own type with Peek/Discard, LimitedReader, own type with an unrelated Len() method, bytes.Buffer, bytes.Reader, strings.Reader). " +
+		Rule: "complete enumeration of all 256 first bytes x the bodies valid for the selected type taken from the specification encoder (minimal, rich, remaining length 0 where the type allows, every short form; for PUBLISH the body matches the QoS bits of that first byte: packet identifier present for QoS 1/2, absent for 0 and for the reserved combination 3), a frame of every remaining length 0..300 (and mined lengths) for every type, and every frame of the valid corpus V (~2.7k frames, one per field shape) under every flag nibble that keeps its body valid, and every specification-valid frame of the dense strata F8 (mid-range lengths of every field, pairs of lengths, special contents in every string field under all 256 reason codes, list lengths); the 256 x bodies frames also arrive byte by byte with idle reads in between and after runs of 99, 100 and 250 idle reads (100 and more: a rejection is acceptable, another type is not); every frame is read through ten reader implementations (scripted, bufio 16/4096/pre-filled, own type with Peek/Discard, LimitedReader, own type with an unrelated Len() method, bytes.Buffer, bytes.Reader, strings.Reader). " +
 			"Oracle: the dynamic type is the one selected by the upper nibble (0 yields Undefined whose Data() equals the body); a PUBLISH reports DUP, QoS and RETAIN of the lower nibble; for types 1-15 writing the decoded packet reproduces the same first byte. distinct_nontrivial = distinct (first byte, body) pairs.",
 		Assumptions: []string{"decoding must succeed for the body to be judged: bodies come from the valid-frame language"},
 		Run:         runC16,
